@@ -133,7 +133,7 @@ let judge line =
     let zseqs = List.map (List.map z_of_int) seqs in
     let n = List.fold_left (fun a s -> a + List.length s) 0 seqs in
     let verdicts = List.filter_map (fun e ->
-      if e = "" then None else
+      if e = "" || e.[0] = '#' then None else      (* "#v=<variant>" tokens name the template variant that disagreed *)
       match String.split_on_char ':' e with
       | r :: offs :: rest ->
         (try
